@@ -121,7 +121,8 @@ pub fn gen(prop: &str, scen: &str, _k: u64, seed: u64, tier: &str) -> Case {
                 case.opt.filters = vec![(k, off)];
             }
             let (k, _) = case.opt.filters[0];
-            case.input = match r_in.below(4) {
+            case.input = match r_in.below(if k == 4 { 5 } else { 4 }) {
+                4 => simcore::case::InputSpec::new("x86soup", len, r_in.next_u64()),
                 0 => {
                     let mut s = simcore::case::InputSpec::new("code", len, r_in.next_u64());
                     s.p1 = match k {
